@@ -10,6 +10,7 @@ only on zero CPU progress).
 
 from __future__ import annotations
 
+import contextlib
 import hashlib
 import math
 import os
@@ -67,6 +68,7 @@ def case_strategy(draw):
     patch_mode = draw(st.sampled_from(["centers", "ids"])) if fault not in ("bad_patch_id", "empty_centre") else ("ids" if fault == "bad_patch_id" else "centers")
     K = draw(st.integers(1, 3))
     case = {"fault": fault, "n": n, "chunksize": c, "workers": workers, "mode": mode, "source": source, "table": table, "patch_mode": patch_mode,
+            "progress": draw(st.sampled_from([False, False, True])),  # the progress display wraps the chunk iteration
             "tape": draw(st.lists(st.integers(0, 5), max_size=12)), "position": draw(st.sampled_from(["first", "middle", "last"])), "row_in_chunk": draw(st.integers(0, c - 1))}
     if patch_mode == "ids":
         table["pid"] = list(range(K)) + draw(st.lists(st.integers(0, K - 1), min_size=n - K, max_size=n - K))
@@ -131,11 +133,14 @@ def _do_create(case, table, tmp, target, overwrite, kwextra):
     from yaw import AngularCoordinates, Catalog
 
     src = sources.write_source(case["source"], table, tmp) if not isinstance(table, Path) else table
-    kw = dict(degrees=True, chunksize=case["chunksize"], max_workers=case["workers"], overwrite=overwrite)
+    kw = dict(degrees=True, chunksize=case["chunksize"], max_workers=case["workers"], overwrite=overwrite, progress=bool(case.get("progress")))
     kw.update(kwextra)
-    if case["source"] == "dataframe":
-        return Catalog.from_dataframe(target, src, **kw)
-    return Catalog.from_file(target, src, **kw)
+    from props.c02_creation import quiet_stderr
+
+    with quiet_stderr() if case.get("progress") else contextlib.nullcontext():
+        if case["source"] == "dataframe":
+            return Catalog.from_dataframe(target, src, **kw)
+        return Catalog.from_file(target, src, **kw)
 
 
 def run_case(case):
